@@ -6,6 +6,7 @@
 #include <cstdio>
 #include <cstdlib>
 #include <sstream>
+#include <functional>
 #include <string>
 #include <vector>
 #include <algorithm>
@@ -133,6 +134,16 @@ static auto make_r() { return parser(row12, terms('1', '2', '3', ':', ';'), nter
     row12(dg, dg, dg, dg, dg, ':', dg, dg, dg, dg, dg, ';') >= [](int a, int b, int c, int d, int e, char colon, int f, int g, int h, int i, int j, char semi) {
         std::string o; for (int x : {a, b, c, d, e}) o += char('0' + x); o += colon; for (int x : {f, g, h, i, j}) o += char('0' + x); o += semi; return o; })); }
 
+// ninth grammar: functor OBJECTS with state of their own (a counter behind a std::function, a struct with a mutable member): the functor called for a node is the one
+// the rule was given - within one parse successive reductions by the same rule see the state left by the previous one (serial numbers 0, 1, 2 ...)
+struct Serial { mutable int next = 0; std::string operator()(skip) const { return std::to_string(next++); } };
+constexpr nterm<std::string> ser("ser"); constexpr nterm<std::string> sers("sers");
+static auto make_s() { return parser(sers, terms('x', 'y'), nterms(sers, ser), rules(
+    ser('x') >= Serial{},
+    ser('y') >= std::function<std::string(skip)>([k = 10](skip) mutable { return std::to_string(k++); }),
+    sers(ser) >= [](std::string&& a) { return std::move(a); },
+    sers(sers, ser) >= [](std::string&& a, std::string&& b) { return a + " " + b; })); }
+
 int main(int argc, char** argv) {
     int n = argc > 1 ? std::atoi(argv[1]) : 5;
     static const auto p = make_p();
@@ -189,6 +200,17 @@ int main(int argc, char** argv) {
             if (!thrown.empty()) { ++fails; if (first.empty()) first = "deep right recursion, " + std::to_string(len) + " tokens: parse threw " + thrown; }
             else if (!r || *r != want) { ++fails; if (first.empty()) first = "deep right recursion, " + std::to_string(len) + " tokens: the functors did not receive their own children's values (result differs from the reversed input" + (r ? " at position " + std::to_string(std::mismatch(r->begin(), r->end(), want.begin(), want.end()).first - r->begin()) : std::string(", empty")) + ")"; }
             else ++accepted;
+        }
+    }
+    {   // grammar 9: every input up to length 6 over {x, y}, each on a freshly built parser
+        std::vector<std::string> in9{""}; for (size_t lo = 0, l = 0; l < 6; ++l) { size_t hi = in9.size(); for (size_t i = lo; i < hi; ++i) for (char c : {'x', 'y'}) in9.push_back(in9[i] + c); lo = hi; }
+        for (const std::string& in : in9) {
+            if (in.empty()) continue;
+            ++cases; ++checks;
+            const auto sp = make_s();
+            std::string want; int nx = 0, ny = 10; for (char c : in) { if (!want.empty()) want += " "; want += std::to_string(c == 'x' ? nx++ : ny++); }
+            auto r = sp.parse(string_buffer(std::string(in)));
+            if (!r || *r != want) { ++fails; if (first.empty()) first = "grammar 9 (functor objects with their own state) input '" + in + "': got '" + (r ? *r : std::string("empty")) + "' expected '" + want + "'"; } else ++accepted;
         }
     }
     {   // grammar 8: all 3^10 digit assignments of the one 12-token sentence shape, plus malformed variants
